@@ -117,9 +117,14 @@ class World:
 
     # ---- operations -----------------------------------------------------------------
     def add(self, o):
-        self.gb.add(self.obj[o])
+        crash = ""
+        try:
+            self.gb.add(self.obj[o])
+        except Exception as ex:  # noqa: BLE001  (adding an object to a builder never fails for these universes)
+            crash = f"{type(ex).__name__}: {ex}"[:200]
+            self.broken = True
         self.added = getattr(self, "added", set()) | {o}
-        return {"ev": "add", "o": o}
+        return {"ev": "add", "o": o, "crash": crash}
 
     def build(self, copy):
         ev = {"ev": "build", "copy": copy}
@@ -231,6 +236,8 @@ def random_trace(rng, nops=14, user_seed=False):
     ev = []
     popped = None
     for _ in range(nops):
+        if getattr(w, "broken", False):
+            break
         r = rng.random()
         live = sorted(w.models)
         if r < 0.25:
@@ -262,6 +269,27 @@ def random_trace(rng, nops=14, user_seed=False):
             if 1 in w.models[m][1]:
                 ev.append(w.assign(m, rng.choice([2.0, 3.0, 5.0])))
     return {"hdr": {"universe": "abcsu" if user_seed else "abcs"}, "ev": ev}
+
+
+def dropped_then_subgraph_traces():
+    """A model is built from the whole graph and dropped without popping its nodes (they are free again once the model
+    is collected); then a model is built from a *part* of the graph and a value is assigned in it; and the same after a
+    pop.  The nodes that stayed outside must play no role in the new model."""
+    out = []
+    for how in ("drop", "pop"):
+        for first, second in (((3,), (2,)), ((3,), (1,)), ((3,), (4,)), ((2,), (1,))):
+            w = World()
+            ev = [w.add(o) for o in first]
+            ev.append(w.build(False))
+            ev.append(w.drop(1) if how == "drop" else w.pop(1))
+            ev += [w.add(o) for o in second]
+            ev.append(w.build(False))
+            if 1 in w.models.get(w.n, (None, {}))[1]:
+                ev.append(w.assign(w.n, 3.0))
+            ev += [w.add(o) for o in first]
+            ev.append(w.build(True))
+            out.append({"hdr": {"universe": "abcs"}, "ev": ev})
+    return out
 
 
 def cyclic_trace(copy=False, seeded=False, hold=False):
